@@ -84,9 +84,18 @@ func (c *cliLab) newModule(name string, s *spec.Spec) (string, error) {
 type chain struct {
 	c       *cliLab
 	history string
-	dir     string
+	dir     string   // module directory (cwd of the tool)
+	out     string   // output root observed ("" = dir)
+	args    []string // extra command line arguments (e.g. -o out)
 	steps   []stepRec
 	n       int
+}
+
+func (h *chain) root() string {
+	if h.out != "" {
+		return h.out
+	}
+	return h.dir
 }
 
 // invoke runs the real CLI: `goa <cmd> clitest/design` in the module directory.
@@ -99,11 +108,11 @@ func (h *chain) invoke(cmd string, extraEnv ...string) (manifest, *stepRec) {
 		env = envWith(env, extraEnv...)
 	}
 	t0 := time.Now()
-	_, se, err := runTool(h.dir, env, 8*time.Minute, h.c.goa, cmd, cliModule+"/design")
+	_, se, err := runTool(h.dir, env, 8*time.Minute, h.c.goa, append([]string{cmd, cliModule + "/design"}, h.args...)...)
 	h.c.calls.Add(1)
 	h.c.run.Count("cli_invocations", 1)
-	m := takeManifest(h.dir, skipNonOutput)
-	st := stepRec{History: h.history, Step: fmt.Sprintf("%d:%s", h.n, cmd), Cmd: "goa " + cmd + " " + cliModule + "/design", Env: strings.Join(extraEnv, " "),
+	m := takeManifest(h.root(), skipNonOutput)
+	st := stepRec{History: h.history, Step: fmt.Sprintf("%d:%s", h.n, cmd), Cmd: strings.TrimSpace("goa " + cmd + " " + cliModule + "/design " + strings.Join(h.args, " ")), Env: strings.Join(extraEnv, " "),
 		Secs: time.Since(t0).Seconds(), Files: len(m)}
 	if err != nil {
 		st.Err = err.Error()
@@ -306,120 +315,10 @@ func (cc *cliCase) runAll() bool {
 		cc.done("gen_stray_gen")
 	})
 
-	// ---- history 2: gen, example, edit, example
-	goh(func() {
-		dir, err := c.newModule(name("b"), cc.spec)
-		if err != nil {
-			run.Infra("cli module: %v", err)
-			return
-		}
-		h := &chain{c: c, history: "gen,example,edit,example", dir: dir}
-		g1, st := h.invoke("gen", "GOMAXPROCS=4")
-		if st.Err != "" {
-			cc.failed(h, st, false)
-			return
-		}
-		cc.compareGen(h, refDir, m1, dir, g1, "goa gen in module copy A", "goa gen in a fresh copy of the module (later)", nil)
-		cc.done("gen_fresh_copy")
-		e1, st := h.invoke("example")
-		if st.Err != "" {
-			cc.failed(h, st, true)
-			return
-		}
-		cc.exampleKeptGen(h, g1, e1, "the first goa example")
-		var ex []string
-		for _, p := range e1.paths() {
-			if _, ok := g1[p]; !ok {
-				ex = append(ex, p)
-			}
-		}
-		if len(ex) == 0 {
-			run.Inconclusive("goa example wrote no file")
-			return
-		}
-		run.Max("max_example_files", len(ex))
-		// the user edits example files: one at the top level (service implementation), one main
-		edited := map[string]bool{}
-		pick := func(pred func(string) bool) {
-			for _, p := range ex {
-				if pred(p) && !edited[p] {
-					edited[p] = true
-					return
-				}
-			}
-		}
-		pick(func(p string) bool { return !strings.Contains(p, "/") })
-		pick(func(p string) bool { return strings.HasSuffix(p, "/main.go") })
-		pick(func(p string) bool { return strings.HasSuffix(p, "/http.go") })
-		if len(edited) == 0 {
-			edited[ex[0]] = true
-		}
-		for p := range edited {
-			if f, e := os.OpenFile(filepath.Join(dir, p), os.O_APPEND|os.O_WRONLY, 0); e == nil {
-				fmt.Fprintf(f, "\n%s\n", userMarker)
-				f.Close()
-			}
-		}
-		// one example file is deleted (the user does not want it... and the run is not a pure no-op)
-		deleted := ""
-		if len(ex) >= 3 {
-			for i := len(ex) - 1; i >= 0; i-- {
-				if !edited[ex[i]] {
-					deleted = ex[i]
-					break
-				}
-			}
-			if deleted != "" {
-				os.Remove(filepath.Join(dir, deleted))
-			}
-		}
-		// known old mtimes on every surviving example file
-		old := time.Date(2001, 2, 3, 4, 5, 6, 0, time.UTC)
-		for i, p := range ex {
-			if p != deleted {
-				_ = os.Chtimes(filepath.Join(dir, p), old, old.Add(time.Duration(i)*time.Second))
-			}
-		}
-		before := takeManifest(dir, skipNonOutput)
-		after, st := h.invoke("example", "GOMAXPROCS=2")
-		if st.Err != "" {
-			cc.failed(h, st, false)
-			return
-		}
-		cc.exampleKeptGen(h, before, after, "the second goa example")
-		mt := false
-		for _, p := range ex {
-			if p == deleted {
-				if _, ok := after[p]; ok {
-					run.Count("example_recreated_deleted_file", 1)
-				}
-				continue
-			}
-			run.Count("example_files_checked", 1)
-			run.Seen("file_roles_compared", pipeline.FileRole(p))
-			role := pipeline.FileRole(p)
-			ea, ok := after[p]
-			what := ""
-			key := ""
-			switch {
-			case !ok:
-				key, what = "cli-example-clobbered:"+role, fmt.Sprintf("%s existed before goa example and is gone after it", p)
-			case ea.Sum != before[p].Sum:
-				key = "cli-example-clobbered:" + role
-				what = fmt.Sprintf("%s existed before goa example (user-edited: %v) and its bytes changed (size %d -> %d; user's marker line still present: %v)", p, edited[p], before[p].Size, ea.Size, fileHas(filepath.Join(dir, p), userMarker))
-			case ea.Mtime != before[p].Mtime && !mt:
-				mt = true
-				key = "cli-example-mtime-changed"
-				what = fmt.Sprintf("%s existed before goa example; its bytes are unchanged but it was rewritten (mtime %s -> %s)", p, time.Unix(0, before[p].Mtime).UTC().Format(time.RFC3339), time.Unix(0, ea.Mtime).UTC().Format(time.RFC3339))
-			}
-			if key != "" {
-				logf("  VIOLATION %s: %s", key, what)
-				run.Violation(key, "history gen,example,edit,example: "+what, cc.witness(h, &fileDiff{Path: p, Kind: "example"}, role, "before the second goa example", "after the second goa example"))
-			}
-		}
-		logf("  [gen,example,edit,example] %d example files, edited %v, deleted %q", len(ex), keys(edited), deleted)
-		cc.done("gen_example_edit_example")
-	})
+	// ---- history 2: gen, example, edit, example (default output directory = module root)
+	goh(func() { cc.exampleHistory(name("b"), false, refDir, m1) })
+	// ---- the same with an explicit output directory (-o out), closed by a second gen
+	goh(func() { cc.exampleHistory(name("o"), true, "", nil) })
 
 	// ---- history 3: example, gen
 	goh(func() {
@@ -457,6 +356,163 @@ func (cc *cliCase) runAll() bool {
 		os.RemoveAll(refDir)
 	}
 	return true
+}
+
+// exampleHistory runs gen, example, (user edits), example [, gen] over one output directory.
+// oflag: pass "-o out" (the example generators' own existence checks look at the
+// working directory; with -o only File.SkipExist protects the user's files).
+func (cc *cliCase) exampleHistory(modName string, oflag bool, refDir string, m1 manifest) {
+	c := cc.c
+	run := c.run
+	dir, err := c.newModule(modName, cc.spec)
+	if err != nil {
+		run.Infra("cli module: %v", err)
+		return
+	}
+	h := &chain{c: c, history: "gen,example,edit,example", dir: dir}
+	hist := "gen_example_edit_example"
+	if oflag {
+		h.history = "-o:gen,example,edit,example,gen"
+		hist = "o_gen_example_edit_example_gen"
+		h.out = filepath.Join(dir, "out")
+		h.args = []string{"-o", "out"}
+	}
+	root := h.root()
+	g1, st := h.invoke("gen", "GOMAXPROCS=4")
+	if st.Err != "" {
+		cc.failed(h, st, oflag)
+		return
+	}
+	if !oflag {
+		cc.compareGen(h, refDir, m1, root, g1, "goa gen in module copy A", "goa gen in a fresh copy of the module (later)", nil)
+		cc.done("gen_fresh_copy")
+	} else {
+		refDir = root + ".ref"
+		if err := copyTree(root, refDir, skipNonOutput); err != nil {
+			run.Infra("copy: %v", err)
+			return
+		}
+		defer func() {
+			if os.Getenv("VERIF_KEEP") == "" {
+				os.RemoveAll(refDir)
+			}
+		}()
+		outside := takeManifest(dir, func(rel string, d bool) bool { return skipNonOutput(rel, d) || d && (rel == "out" || rel == "out.ref") })
+		if len(outside) > 0 {
+			run.Count("files_written_outside_-o_directory(not a verdict)", len(outside))
+		}
+	}
+	e1, st := h.invoke("example")
+	if st.Err != "" {
+		cc.failed(h, st, true)
+		return
+	}
+	cc.exampleKeptGen(h, g1, e1, "the first goa example")
+	var ex []string
+	for _, p := range e1.paths() {
+		if _, ok := g1[p]; !ok {
+			ex = append(ex, p)
+		}
+	}
+	if len(ex) == 0 {
+		run.Inconclusive("goa example wrote no file")
+		return
+	}
+	run.Max("max_example_files", len(ex))
+	// the user edits example files: one at the top level (service implementation), one main
+	edited := map[string]bool{}
+	pick := func(pred func(string) bool) {
+		for _, p := range ex {
+			if pred(p) && !edited[p] {
+				edited[p] = true
+				return
+			}
+		}
+	}
+	pick(func(p string) bool { return !strings.Contains(p, "/") })
+	pick(func(p string) bool { return strings.HasSuffix(p, "/main.go") })
+	pick(func(p string) bool { return strings.HasSuffix(p, "/http.go") })
+	if len(edited) == 0 {
+		edited[ex[0]] = true
+	}
+	for p := range edited {
+		if f, e := os.OpenFile(filepath.Join(root, p), os.O_APPEND|os.O_WRONLY, 0); e == nil {
+			fmt.Fprintf(f, "\n%s\n", userMarker)
+			f.Close()
+		}
+	}
+	// one example file is deleted (the user does not want it... and the run is not a pure no-op)
+	deleted := ""
+	if len(ex) >= 3 {
+		for i := len(ex) - 1; i >= 0; i-- {
+			if !edited[ex[i]] {
+				deleted = ex[i]
+				break
+			}
+		}
+		if deleted != "" {
+			os.Remove(filepath.Join(root, deleted))
+		}
+	}
+	// known old mtimes on every surviving example file
+	old := time.Date(2001, 2, 3, 4, 5, 6, 0, time.UTC)
+	for i, p := range ex {
+		if p != deleted {
+			_ = os.Chtimes(filepath.Join(root, p), old, old.Add(time.Duration(i)*time.Second))
+		}
+	}
+	before := takeManifest(root, skipNonOutput)
+	after, st := h.invoke("example", "GOMAXPROCS=2")
+	if st.Err != "" {
+		cc.failed(h, st, false)
+		return
+	}
+	cc.exampleKeptGen(h, before, after, "the second goa example")
+	mt := false
+	for _, p := range ex {
+		if p == deleted {
+			if _, ok := after[p]; ok {
+				run.Count("example_recreated_deleted_file", 1)
+			}
+			continue
+		}
+		run.Count("example_files_checked", 1)
+		run.Seen("file_roles_compared", pipeline.FileRole(p))
+		role := pipeline.FileRole(p)
+		ea, ok := after[p]
+		what := ""
+		key := ""
+		switch {
+		case !ok:
+			key, what = "cli-example-clobbered:"+role, fmt.Sprintf("%s existed before goa example and is gone after it", p)
+		case ea.Sum != before[p].Sum:
+			key = "cli-example-clobbered:" + role
+			what = fmt.Sprintf("%s existed before goa example (user-edited: %v) and its bytes changed (size %d -> %d; user's marker line still present: %v)", p, edited[p], before[p].Size, ea.Size, fileHas(filepath.Join(root, p), userMarker))
+		case ea.Mtime != before[p].Mtime && !mt:
+			mt = true
+			key = "cli-example-mtime-changed"
+			what = fmt.Sprintf("%s existed before goa example; its bytes are unchanged but it was rewritten (mtime %s -> %s)", p, time.Unix(0, before[p].Mtime).UTC().Format(time.RFC3339), time.Unix(0, ea.Mtime).UTC().Format(time.RFC3339))
+		}
+		if key != "" {
+			logf("  VIOLATION %s: %s", key, what)
+			run.Violation(key, "history "+h.history+": "+what, cc.witness(h, &fileDiff{Path: p, Kind: "example"}, role, "before the second goa example", "after the second goa example"))
+		}
+	}
+	logf("  [%s] %d example files, edited %v, deleted %q", h.history, len(ex), keys(edited), deleted)
+	if oflag {
+		g2, st := h.invoke("gen", "GOMAXPROCS=3")
+		if st.Err != "" {
+			cc.failed(h, st, false)
+			return
+		}
+		isEx := map[string]bool{}
+		for _, p := range ex {
+			isEx[p] = true
+		}
+		n := cc.compareGen(h, refDir, g1, root, g2, "the first goa gen -o out", "goa gen -o out over gen+example output", func(p string) bool { return isEx[p] })
+		logf("  [%s] closing gen: %d differences", h.history, n)
+	}
+	cc.done(hist)
 }
 
 // exampleKeptGen: goa example must not touch what exists below gen/ (it exists already: "never modifies a file that already exists").
